@@ -54,7 +54,13 @@ def dim(e: ast.expr, env: Callable[[ast.expr], Any]) -> Any:
     if isinstance(e, ast.UnaryOp) and isinstance(e.op, (ast.USub, ast.UAdd)):
         return dim(e.operand, env)
     if isinstance(e, ast.Call) and isinstance(e.func, ast.Name) and e.func.id in WRAPPERS and e.args:
-        return dim(e.args[-1] if e.func.id == "cast" else e.args[0], env)
+        u = dim(e.args[-1] if e.func.id == "cast" else e.args[0], env)
+        # the value types carry a unit: Beat(x) snaps x to the 1/48-beat grid, SongTime(x) is seconds
+        if e.func.id == "Beat" and len(e.args) == 1 and u not in (ANY, BEAT):
+            raise DimError(f"'{ast.unparse(e)}' makes a Beat of a quantity in {show(u)}: Beat() snaps inexact values to the 1/48-beat grid, which rounds a BPM / a time")
+        if e.func.id == "SongTime" and u not in (ANY, SEC):
+            raise DimError(f"'{ast.unparse(e)}' makes a SongTime of a quantity in {show(u)}")
+        return u
     if isinstance(e, ast.BinOp):
         if isinstance(e.op, (ast.Add, ast.Sub)):
             a, b = dim(e.left, env), dim(e.right, env)
